@@ -147,11 +147,12 @@ func MailboxViewAttach(w http.ResponseWriter, req *http.Request, ctx *web.Contex
 		// This doesn't indicate empty, likely an IO error
 		return fmt.Errorf("GetMessage(%q) failed: %v", id, err)
 	}
-	if int(num) >= len(msg.Attachments()) {
+	attachments := msg.Attachments()
+	if num >= uint64(len(attachments)) {
 		return errors.New("requested attachment number does not exist")
 	}
 	// Output attachment
-	part := msg.Attachments()[num]
+	part := attachments[num]
 	w.Header().Set("Content-Type", part.ContentType)
 	_, err = w.Write(part.Content)
 	return err
